@@ -1,6 +1,8 @@
 package opset13
 
 import (
+	"sort"
+
 	"github.com/advancedclimatesystems/gonnx/onnx"
 	"github.com/advancedclimatesystems/gonnx/ops"
 	"gorgonia.org/tensor"
@@ -73,6 +75,13 @@ func (r *ReduceMin) Apply(inputs []tensor.Tensor) ([]tensor.Tensor, error) {
 		if axes[i] < 0 || axes[i] >= rank {
 			return nil, ops.ErrAxisOutOfRange(rank, rank, axis)
 		}
+	}
+
+	sortedAxes := append([]int{}, axes...)
+	sort.Ints(sortedAxes)
+
+	if ops.HasDuplicates(sortedAxes) {
+		return nil, ops.ErrInvalidAttribute("axes", r)
 	}
 
 	out, err := input.Min(axes...)
